@@ -143,6 +143,9 @@ structure ExtOK (E : Ext) : Prop where
   /-- `str.lower()` keeps a leading `_` / `?` -/
   low_us : ∀ s : Str, ∃ r, E.lowerU ('_' :: s) = '_' :: r
   low_q : ∀ s : Str, ∃ r, E.lowerU ('?' :: s) = '?' :: r
+  num_colon : E.isNumeric ':' = false
+  /-- `str.lower()` keeps a colon -/
+  low_colon : ∀ s : Str, ':' ∈ s → ':' ∈ E.lowerU s
 
 /-- the text between the quotes -/
 def encBody (x : Str) : Str := if '\n' ∈ x then longEncode x else shortEncode x
@@ -264,6 +267,13 @@ theorem litN3_dt (E : Ext) (x : Str) (c : Char) (r : Str)
   · simp [litN3, truthy, hm, hinf hm]
   · simp [litN3, truthy, hm]
 
+theorem litN3Q_dt (E : Ext) (x : Str) (c : Char) (r : Str)
+    (hinf : (c :: r) ∈ Tables.infNanTypes → E.floatKind x = .other) (hq : E.qname (c :: r) ≠ []) :
+    litN3Q E x (some (c :: r)) none = quoteEncode x ++ ('^' :: '^' :: E.qname (c :: r)) := by
+  by_cases hm : (c :: r) ∈ Tables.infNanTypes
+  · simp [litN3Q, truthy, hm, hinf hm, hq]
+  · simp [litN3Q, truthy, hm, hq]
+
 /-! ### the forms that are not quoted -/
 
 theorem removeFirst_cons_ne (c x : Char) (s : Str) (h : x ≠ c) : removeFirst c (x :: s) = x :: removeFirst c s := by
@@ -297,5 +307,94 @@ theorem fromN3_iri (E : Ext) (hE : ExtOK E) (nz : Bool) (s : Str) (hs : isValidU
   rw [h1]
   simp only [fromN3Node, List.cons_append]
   rw [dropLast_append_singleton, hE.iri s (mem_invalid_of_not_valid hs backslash_invalid)]
+
+/-! ### prefixed names (`from_n3(…, nsm=…)`) -/
+
+theorem mem_removeFirst_of_ne {x c : Char} (h : x ≠ c) : ∀ s : Str, x ∈ s → x ∈ removeFirst c s
+  | [], hm => by cases hm
+  | y :: s, hm => by
+    simp only [removeFirst]
+    split
+    · next hy =>
+      rcases List.mem_cons.mp hm with e | hm
+      · exact absurd (e.trans hy) h
+      · exact hm
+    · rcases List.mem_cons.mp hm with e | hm
+      · exact List.mem_cons.mpr (Or.inl e)
+      · exact List.mem_cons_of_mem _ (mem_removeFirst_of_ne h s hm)
+
+theorem numericLike_colon (E : Ext) (hE : ExtOK E) (s : Str) (h : ':' ∈ s) : numericLike E s = false := by
+  have h1 := hE.low_colon s h
+  have h2 := mem_removeFirst_of_ne (c := 'e') (by decide)
+    _ (mem_removeFirst_of_ne (c := '-') (by decide) _ (mem_removeFirst_of_ne (c := '.') (by decide) _ h1))
+  simp only [numericLike, Bool.and_eq_false_iff]
+  right
+  rw [List.all_eq_false]
+  exact ⟨':', h2, by simp [hE.num_colon]⟩
+
+theorem splitFirst_append (c : Char) : ∀ (p l : Str), c ∉ p → splitFirst c (p ++ c :: l) = (p, l)
+  | [], l, _ => by simp [splitFirst]
+  | x :: p, l, h => by
+    have hx : x ≠ c := fun e => h (List.mem_cons.mpr (Or.inl e.symm))
+    have ih := splitFirst_append c p l (fun e => h (List.mem_cons_of_mem _ e))
+    simp [splitFirst, hx, ih]
+
+/-- a prefix as a namespace manager hands them out: it begins with an ASCII letter and has no colon -/
+def GoodPrefix (p : Str) : Prop := (∃ a r, p = a :: r ∧ isAlpha a = true) ∧ ':' ∉ p
+
+theorem alpha_ne {a : Char} (h : isAlpha a = true) :
+    a ≠ '"' ∧ a ≠ '<' ∧ a ≠ '{' ∧ a ≠ '[' ∧ a ≠ '_' ∧ a ≠ '?' := by
+  refine ⟨?_, ?_, ?_, ?_, ?_, ?_⟩ <;> (intro e; subst e; revert h; decide)
+
+/-- ⊢ a prefixed name whose prefix the manager binds is read as the IRI namespace + local part -/
+theorem fromN3_qname (E : Ext) (hE : ExtOK E) (nz : Bool) (tbl : List (Str × Str)) (hn : E.nsm = some tbl)
+    (p l ns : Str) (hp : GoodPrefix p) (hl : dlookup p tbl = some ns) :
+    fromN3 E nz (p ++ ':' :: l) = .term (.node .uri (ns ++ l)) := by
+  obtain ⟨⟨a, r, rfl, ha⟩, hc⟩ := hp
+  obtain ⟨h1, h2, h3, h4, h5, h6⟩ := alpha_ne ha
+  have hmem : ':' ∈ (a :: r) ++ ':' :: l := by simp
+  have hnum := numericLike_colon E hE _ hmem
+  have hsplit := splitFirst_append ':' (a :: r) l hc
+  have ht : ¬ ((a :: r) ++ ':' :: l = "true".toList) := by
+    intro e; have := e ▸ hmem; revert this; decide
+  have hf : ¬ ((a :: r) ++ ':' :: l = "false".toList) := by
+    intro e; have := e ▸ hmem; revert this; decide
+  have e1 : fromN3 E nz ((a :: r) ++ ':' :: l) = fromN3Node E ((a :: r) ++ ':' :: l) := by
+    simp [fromN3, h1]
+  rw [e1]
+  simp only [List.cons_append] at hnum hsplit ht hf hmem ⊢
+  simp only [fromN3Node, ht, hf, hnum, hmem, hn, hsplit, hl, if_false, if_true,
+    Bool.false_eq_true]
+  split
+  · next heq => simp at heq
+  · next heq => simp [h2] at heq
+  · split
+    · next heq => simp [h3] at heq
+    · next heq => simp [h4] at heq
+    · next heq => simp [h5] at heq
+    · next heq => simp [h6] at heq
+    · rfl
+
+theorem litFromParts_qdt (E : Ext) (hE : ExtOK E) (nz : Bool) (tbl : List (Str × Str)) (hn : E.nsm = some tbl)
+    (x p l ns : Str) (hp : GoodPrefix p) (hl : dlookup p tbl = some ns) (hhat : '^' ∉ p ++ ':' :: l) :
+    litFromParts E nz (encBody x) ('^' :: '^' :: (p ++ ':' :: l)) = Rd.ofExcept (mkLit E nz x none (some (ns ++ l))) := by
+  have hsplit := rsplit1_hat (p ++ ':' :: l) hhat
+  have hq := fromN3_qname E hE nz tbl hn p l ns hp hl
+  obtain ⟨⟨a, r, rfl, ha⟩, hc⟩ := hp
+  obtain ⟨h1, _⟩ := alpha_ne ha
+  have e1 : fromN3 E nz ((a :: r) ++ ':' :: l) = fromN3Node E ((a :: r) ++ ':' :: l) := by
+    simp [fromN3, h1]
+  rw [e1] at hq
+  simp only [List.cons_append] at hsplit hq ⊢
+  simp only [litFromParts, hsplit, hq, decode_encBody]
+  split
+  all_goals first
+    | rfl
+    | (rename_i heq; simp at heq; done)
+    | (rename_i heq; simp [h1] at heq; done)
+    | (rename_i heq _; simp at heq; done)
+    | (rename_i heq; simp at heq; obtain ⟨_, rfl⟩ := heq; rfl)
+    | (rename_i heq _; simp at heq; obtain ⟨_, rfl⟩ := heq; rfl)
+    | simp_all
 
 end RV.C07
